@@ -440,6 +440,11 @@ func (env *Env) methodCall(sel *spec.Sel, argExprs []spec.Expr) Value {
 func (env *Env) pureCall(ci calleeInfo, args []Value) Value {
 	en := env.x.e
 	if fs := en.w.Contracts[ci.key]; fs != nil && !(fs.Inline && ci.fn != nil && ci.fn.Blocks != nil) {
+		if fs.External || fs.Trusted != "" {
+			en.trustedUsed[fs.Key] = true
+		} else {
+			en.contractsUsed[fs.Key] = true
+		}
 		if fs.Opts["stable"] != "" {
 			return env.stableResult(ci, fs, args)
 		}
